@@ -20,7 +20,7 @@ COQ_TARGETS = ["theories/Props/C13.vo", "theories/Model/GuardsRun.vo"]
 DRIVER = None
 LEVEL = "proof"
 RULE = ("three feature-covering seed documents (embedded TrueType / Type 1 / CFF programs, RunLength / ASCIIHex / LZW+predictor streams, DeviceN / Indexed / Lab colour spaces, a CCITT inline image, a predefined CJK CMap, nested forms; simple, CID and Type3 fonts, ToUnicode, encoding Differences, W/W2, forms, "
-        "images with filter chains, inline images, colour spaces, outlines, page labels and named destinations as trees, "
+        "images with filter chains (also exported to a scratch directory), inline images, colour spaces, outlines, page labels and named destinations as trees, "
         "inherited page attributes, Flate content); every single structural fault: each dictionary value and array "
         "element replaced by a value of another type (int, negative, real, 10^12, name, string, empty/non-empty array and "
         "dictionary, null, boolean, a reference to the object itself, to a missing object, into a cycle), each key or "
@@ -138,7 +138,7 @@ def seed3():
           b"dup 65 /B put\ndup 66 /A put\nreadonly def\ncurrentdict end\ncurrentfile eexec\n") + bytes(range(64))
     content1 = b"BT /F1 12 Tf 72 700 Td (AB) Tj /F2 10 Tf <00200041> Tj /F4 8 Tf (ab) Tj ET /Dn cs 0.2 0.4 scn 0 0 5 5 re f /Ix cs 1 sc 5 5 5 5 re f"
     content2 = (b"BT /F3 10 Tf 20 100 Td <8140> Tj ET /Lb CS 50 0 0 SC 1 1 m 9 9 l S q 2 0 0 2 0 0 cm /Outer Do Q "
-                b"BI /W 8 /H 1 /BPC 1 /F /CCF /DP << /K -1 /Columns 8 >> ID \x26\xa0\x00\x10\x01\nEI")
+                b"BI /W 5 /H 2 /BPC 1 /F /CCF /DP << /K -1 /Columns 5 >> ID \x26\xba\x8a\x80\x08\x00\x80\nEI")
     rows = [list(content2[i:i + 16].ljust(16, b" ")) for i in range(0, len(content2), 16)]
     pred = c03.png_encode(r, rows, 1)[0]
     return {
@@ -234,11 +234,26 @@ def apply_fault(objs, n, path, rep, r):
     return o2
 
 
+def _export_images(pdf):
+    """extract_text_to_fp with an output directory: images are written (to a scratch directory removed afterwards)"""
+    import shutil
+    import tempfile
+    from pdfminer.high_level import extract_text_to_fp
+    root = os.path.join(common.WORK, "c13img")
+    os.makedirs(root, exist_ok=True)
+    d = tempfile.mkdtemp(dir=root)
+    try:
+        extract_text_to_fp(io.BytesIO(pdf), io.BytesIO(), output_type="xml", output_dir=d)
+    finally:
+        shutil.rmtree(d, ignore_errors=True)
+
+
 def entry_points():
     from pdfminer.high_level import extract_text, extract_pages, extract_text_to_fp
     return [("extract_text", lambda pdf: extract_text(io.BytesIO(pdf))),
             ("extract_pages", lambda pdf: list(extract_pages(io.BytesIO(pdf)))),
-            ("xml", lambda pdf: extract_text_to_fp(io.BytesIO(pdf), io.BytesIO(), output_type="xml"))]
+            ("xml", lambda pdf: extract_text_to_fp(io.BytesIO(pdf), io.BytesIO(), output_type="xml")),
+            ("images", _export_images)]
 
 
 def run_budgeted(fn, pdf, budget, seconds=20):
